@@ -1021,6 +1021,31 @@ fn gen_plant(g: &mut G, files: &mut Vec<FileGen>, pfile: usize, avoid_known: boo
                 p.line = sub(OPERATOR_DEF[i]);
             }
         }
+        "argument" if g.t.chance(1, 5) => {
+            // a generic (unannotated) callee defined right before: the requirement on the argument comes from an operator
+            // in the callee's body; the mismatching literal is written at the call
+            const GENERIC: &[(&[&str], &[&str])] = &[
+                (&["{f} :: fn a0, a1 -> do ret a0 * a1 end"], &["2, \"x\"", "true, 2", "1.5, 2"]),
+                (&["{f} :: fn a0 -> do", "    -a0", "end"], &["\"s\"", "true"]),
+                (&["{f} :: fn a0, a1 -> do a0 < a1 end"], &["1, \"s\"", "\"a\", 2"]),
+                (&["{f} :: fn a0, a1 -> do", "    a0 + a1", "end"], &["1, \"s\"", "1, 1.5", "\"a\", 2.5"]),
+                (&["{f} :: fn a0, a1 -> do", "    zt :: a0 - a1", "    zt", "end"], &["1, \"s\"", "2.5, 1"]),
+                (&["{f} :: abs"], &["\"q\""]),
+            ];
+            let i = g.t.below(GENERIC.len());
+            let (def, bads) = GENERIC[i];
+            let fname = format!("zf{}", k);
+            for l in def {
+                p.setup.push(l.replace("{f}", &fname));
+            }
+            let bad = *g.t.pick(bads);
+            let (call, form) = match g.t.below(3) {
+                0 => (format!("{}' {}", fname, bad), "prime"),
+                _ => (format!("{}({})", fname, bad), "paren"),
+            };
+            p.spelling = format!("generic-callee{}-{}", i, form);
+            p.line = if in_block && form != "prime" && g.t.bool() { format!("print({})", call) } else { format!("{} :: {}", x, call) };
+        }
         "argument" => {
             // the annotated function: own, imported (import piece must exist already), or defined right before
             // inside an existing function only functions generated before it may be called (no dependency cycles)
